@@ -14,12 +14,14 @@ class GatedRecorder(execgen.Recorder):
         super().__init__()
         self.gates = {}           # site key -> future
         self.log = []             # ("start"|"finish", site key)
+        self.info_changed = []    # (site key, the path its ResolveInfo shows after the resolver resumed)
         self.prefix = ()
 
     def clear(self):
         super().clear()
         self.gates.clear()
         self.log.clear()
+        self.info_changed = []
 
 
 async def build_gated_engine(s, schema_name, oracle_ref, rec, cfg):
@@ -38,7 +40,7 @@ async def build_gated_engine(s, schema_name, oracle_ref, rec, cfg):
             kw["arguments_coercer"] = sync_arguments_coercer
         if (tname, fname) in s["field_type_resolvers"]:
             def ftr(result, ctx, info, abstract_type):
-                out = result.get("__tr") if isinstance(result, dict) else getattr(result, "__tr", "Nope")
+                out = execgen.read_tr(result)
                 ctx["rec"].tr_calls.append({"path": info.path.as_list(), "abstract": abstract_type.name,
                                             "value": result, "ret": out})
                 return out
@@ -64,6 +66,11 @@ async def build_gated_engine(s, schema_name, oracle_ref, rec, cfg):
             rc.gates[key] = fut
             await fut
             rc.log.append(("finish", key))
+            # a resolver may read its ResolveInfo at any time: what it was handed must still describe ITS execution
+            after = info.path.as_list()
+            if after != path or info.field_name != fname:
+                rc.info_changed.append((key, tuple(after)))
+                raise RuntimeError("%sinfo of %s reads %s after the resolver resumed" % (execgen.USER_PREFIX, path, after))
             if out[0] == "ret":
                 return entry["ret"][1]
             if out[2]:
@@ -80,7 +87,7 @@ async def build_gated_engine(s, schema_name, oracle_ref, rec, cfg):
         def mktr(a):
             @TypeResolver(a, schema_name=schema_name)
             def tr(result, ctx, info, abstract_type):
-                out = result.get("__tr") if isinstance(result, dict) else getattr(result, "__tr", "Nope")
+                out = execgen.read_tr(result)
                 ctx["rec"].tr_calls.append({"path": info.path.as_list(), "abstract": abstract_type.name,
                                             "value": result, "ret": out})
                 return out
@@ -190,6 +197,9 @@ async def run_scheduled(engine, s, case, chooser, max_steps=400):
     finishes = [k for kind, k in rec.log if kind == "finish"]
     if len(set(starts)) != len(starts) or any(kind == "double-start" for kind, _ in rec.log):
         problems.append("a resolver was started twice")
+    if rec.info_changed:
+        problems.append("the ResolveInfo handed to the resolver at %r shows path %r after the resolver resumed (it was modified "
+                        "while the resolver was suspended)" % (list(rec.info_changed[0][0]), list(rec.info_changed[0][1])))
     if sorted(map(repr, starts)) != sorted(map(repr, finishes)) and not pending_after:
         problems.append("started and finished resolver sets differ")
     return {"response": resp if resp is not None else {"data": None}, "raised": raised, "picks": picks,
